@@ -7,7 +7,7 @@ from . import base
 ID = 'C05'
 LEVEL = 'exploration'
 PLAN = {
-    'quick': [('synth_group', 3600), ('shipped_group', 160)],
+    'quick': [('synth_group', 9000), ('shipped_group', 160)],
     'thorough': [('synth_group', 120000), ('shipped_group', 6000)],
 }
 DEADLINE = {'quick': 200, 'thorough': 3300}
